@@ -182,7 +182,7 @@ func (c *Ctx) returnsUnchanged(rule string, f *ssa.Function, resIdx int, callee 
 		if resIdx >= len(r.Results) {
 			continue
 		}
-		v := r.Results[resIdx]
+		v := retVal(r, resIdx)
 		var vals []ssa.Value
 		if phi, ok := v.(*ssa.Phi); ok {
 			vals = phi.Edges
@@ -370,7 +370,7 @@ func (c *Ctx) delegatesTo(rule string, f *ssa.Function, resIdx int, callees []st
 	var offenders []string
 	n := 0
 	for _, sp := range sps {
-		v := sp.Ret.Results[resIdx]
+		v := retVal(sp.Ret, resIdx)
 		vals := []ssa.Value{v}
 		if phi, ok := v.(*ssa.Phi); ok {
 			vals = phi.Edges
